@@ -103,6 +103,21 @@ class Lib(object):
             cx.axiom("str.join.drop0", z3.ForAll([sp, s], f(sp, dr(s, 0)) == f(sp, s), patterns=[f(sp, dr(s, 0))]))
         return f(sep, seq_sv.e)
 
+    def strip_prefix_axioms(self):
+        """assumed facts about str.strip(): a prefix / suffix that neither starts nor ends with whitespace survives strip()"""
+        cx = self.cx
+        if "strip_prefix" in self._strf:
+            return
+        self._strf["strip_prefix"] = 1
+        nows = cx.func("str_nows", cx.Str, B)
+        strip0 = cx.func("str_strip0", cx.Str, cx.Str)
+        x, l = z3.Consts("x!p l!p", cx.Str)
+        for nm in ("startswith", "endswith"):
+            sw = cx.func("str_%s1" % nm, cx.Str, cx.Str, B)
+            cx.axiom("str.strip.keeps-%s" % nm, z3.ForAll([x, l], z3.Implies(z3.And(sw(x, l), nows(l)), z3.And(sw(strip0(x), l), cx.strlen(strip0(x)) >= cx.strlen(l))),
+                                                          patterns=[z3.MultiPattern(sw(x, l), strip0(x))]))
+        cx.axiom("str.strip.len", z3.ForAll([x], cx.strlen(strip0(x)) <= cx.strlen(x), patterns=[strip0(x)]))
+
     def seq_contains(self, cont, item):
         cx = self.cx
         t = cont.t
